@@ -69,6 +69,9 @@ func (tc TimeCodec) Read(data []byte, ptr unsafe.Pointer, wt plenccore.WireType)
 	for offset < l {
 		verifYield("time.read")
 		wt, index, n := plenccore.ReadTag(data[offset:])
+		if n <= 0 {
+			return 0, fmt.Errorf("invalid tag in time")
+		}
 		offset += n
 
 		switch index {
@@ -188,6 +191,9 @@ func (tc TimeCompatCodec) Read(data []byte, ptr unsafe.Pointer, wt plenccore.Wir
 	for offset < l {
 		verifYield("time.read")
 		wt, index, n := plenccore.ReadTag(data[offset:])
+		if n <= 0 {
+			return 0, fmt.Errorf("invalid tag in time")
+		}
 		offset += n
 
 		switch index {
